@@ -20,7 +20,24 @@ def main():
         sys.exit(3)
     mod = importlib.import_module('checks.' + os.path.basename(mods[0])[:-3])
     if a.replay:
-        sys.exit(mod.replay(a.replay))
+        # A replay file names the run that produced it (property, tier, seed); all generators are seeded, so re-running that run
+        # against the current tree re-creates every witness case.  Evidence and replay files of the re-run go to a scratch directory.
+        import json, tempfile, shutil
+        with open(a.replay) as f:
+            rec = json.load(f)
+        want = sorted(set(v['mech'] for v in rec.get('violations', [])))
+        td = tempfile.mkdtemp(prefix='verif-replay-')
+        os.environ['VERIF_EVIDENCE_DIR'] = td
+        os.environ['VERIF_REPLAY_DIR'] = td
+        rc = mod.main(rec['tier'], int(rec['seed']))
+        got = []
+        rp = os.path.join(td, os.path.basename(a.replay))
+        if os.path.exists(rp):
+            with open(rp) as f:
+                got = sorted(set(v['mech'] for v in json.load(f).get('violations', [])))
+        shutil.rmtree(td, ignore_errors=True)
+        print("REPLAY property=%s tier=%s seed=%s: recorded mechanisms %r; on the current tree: %r" % (rec['property'], rec['tier'], rec['seed'], want, got))
+        sys.exit(rc)
     sys.exit(mod.main(a.tier, a.seed))
 
 
